@@ -1252,6 +1252,71 @@ HANDLERS = dict(unique=h_unique, argmax=h_argmax, pad=h_pad, array_equal=h_array
                 iscomplexobj=h_iscomplexobj, broadcast_to=h_broadcast_to)
 
 
+# ----------------------------------------------------------------- structured (record) arrays
+
+class SStructScalar:
+    def __init__(self, dtype, values):
+        self.dtype, self.values = dtype, values
+
+    def __getitem__(self, k):
+        return self.values[k if isinstance(k, str) else self.dtype.names[k]]
+
+
+class SStructArray:
+    """Array of records whose fields are one-byte integers (RGB volumes): one SArray per field plus the memory order.
+    ``view`` with another item size takes its layout from NumPy itself (a concrete record array of the same shape and
+    order holding byte identifiers is viewed by the real NumPy; exceptions included), the contents stay symbolic."""
+    def __init__(self, fields, order="C"):
+        self.fields = dict(fields)
+        first = next(iter(self.fields.values()))
+        for f in self.fields.values():
+            if f.dtype.itemsize != 1 or f.shape != first.shape:
+                raise OutsideModel("record fields other than one-byte integers of one shape")
+        self.dtype = real_np.dtype([(n, f.dtype) for n, f in self.fields.items()])
+        self.shape, self.ndim, self.order = first.shape, first.ndim, order
+        self.size = first.size
+
+    def _layout(self):
+        return real_np.zeros(self.shape, dtype=self.dtype, order=self.order)
+
+    @property
+    def flags(self):
+        return self._layout().flags
+
+    def __getitem__(self, k):
+        if isinstance(k, str):
+            return self.fields[k]
+        if isinstance(k, tuple) and len(k) == self.ndim and all(isinstance(i, (builtins.int, real_np.integer)) for i in k):
+            return SStructScalar(self.dtype, {n: f[k] for n, f in self.fields.items()})
+        sub = {n: f[k] for n, f in self.fields.items()}
+        if all(isinstance(v, SArray) for v in sub.values()):
+            probe = self._layout()[k]
+            return SStructArray(sub, "F" if probe.ndim > 1 and probe.flags.f_contiguous and not probe.flags.c_contiguous else "C")
+        raise OutsideModel("record array index")
+
+    def view(self, dtype=None, type=None):
+        dt = real_np.dtype(_unwrap_dtype(dtype))
+        if dt.itemsize != 1:
+            raise OutsideModel("record array viewed with a multi-byte type")
+        k = len(self.fields)
+        if self.size * k > 256:
+            raise OutsideModel("record array too large for the layout oracle")
+        ids = self._layout()
+        flat_ids = real_np.arange(self.size * k, dtype=real_np.uint8).reshape(self.shape + (k,))
+        for j, n in enumerate(self.fields):
+            ids[n] = flat_ids[..., j]
+        v = ids.view(real_np.uint8)                     # NumPy decides shape, order and errors
+        names = list(self.fields)
+        out = real_np.empty(v.shape, dtype=object, order="F" if v.ndim > 1 and v.flags.f_contiguous and not v.flags.c_contiguous else "C")
+        for idx in real_np.ndindex(*v.shape):
+            vox, j = divmod(builtins.int(v[idx]), k)
+            out[idx] = _retag(self.fields[names[j]].a[real_np.unravel_index(vox, self.shape)], dt)
+        return SArray(out, dt)
+
+    def __sarray__(self):
+        return self
+
+
 # ----------------------------------------------------------------- np proxy
 
 class NPProxy:
@@ -1298,6 +1363,10 @@ class NPProxy:
         dtype = _unwrap_dtype(dtype)
         if hasattr(x, "__sarray__"):
             x = x.__sarray__()
+        if isinstance(x, SStructArray):
+            if dtype is not None:
+                raise OutsideModel("conversion of a record array")
+            return x
         if isinstance(x, SArray):
             return x if dtype is None or real_np.dtype(dtype) == x.dtype else x.astype(dtype)
         if is_elem(x):
